@@ -1371,6 +1371,10 @@ def run_constants(ctx):
          "intros A B f [x|xs] [y|ys]; unfold code_of, dispatch2, dispatch_src_Dc, dispatch_src_Dm, dispatch_src_Da, "
          "dispatch_src_Dl, dispatch_src_sigmacritinv; cbn [is_sc arg_len andb negb]; "
          "try destruct (Nat.eqb (length xs) (length ys)); repeat split; reflexivity."),
+        ("C wrappers of cosmolib_pywrap.c as translated (callee, argument order, arg[i] / arg reads, loop size) = the wrappers "
+         "Model.W_vec1 / W_vec2 / W_2vec for which the loops are proved element-wise (C11_vector_loops_are_elementwise)",
+         "wrapper_of WRAP_Dc_vec1 = (1%nat, true, W_vec1) /\\ wrapper_of WRAP_Dc_vec2 = (1%nat, true, W_vec2) /\\ wrapper_of WRAP_Dc_2vec = (1%nat, true, W_2vec) /\\ SCALAR_Dc = (1%nat, true) /\\ wrapper_of WRAP_Dm_vec1 = (2%nat, true, W_vec1) /\\ wrapper_of WRAP_Dm_vec2 = (2%nat, true, W_vec2) /\\ wrapper_of WRAP_Dm_2vec = (2%nat, true, W_2vec) /\\ SCALAR_Dm = (2%nat, true) /\\ wrapper_of WRAP_Da_vec1 = (3%nat, true, W_vec1) /\\ wrapper_of WRAP_Da_vec2 = (3%nat, true, W_vec2) /\\ wrapper_of WRAP_Da_2vec = (3%nat, true, W_2vec) /\\ SCALAR_Da = (3%nat, true) /\\ wrapper_of WRAP_Dl_vec1 = (4%nat, true, W_vec1) /\\ wrapper_of WRAP_Dl_vec2 = (4%nat, true, W_vec2) /\\ wrapper_of WRAP_Dl_2vec = (4%nat, true, W_2vec) /\\ SCALAR_Dl = (4%nat, true) /\\ wrapper_of WRAP_scinv_vec1 = (7%nat, true, W_vec1) /\\ wrapper_of WRAP_scinv_vec2 = (7%nat, true, W_vec2) /\\ wrapper_of WRAP_scinv_2vec = (7%nat, true, W_2vec) /\\ SCALAR_scinv = (7%nat, true) /\\ WRAP1_ez_inverse_vec = (0%nat, true) /\\ SCALAR_ez_inverse = (0%nat, true) /\\ WRAP1_dV_vec = (5%nat, true) /\\ SCALAR_dV = (5%nat, true) /\\ SCALAR_V = (6%nat, true) /\\ SCALAR_ez_inverse_integral = (8%nat, true)",
+         "repeat split; reflexivity."),
         ("Cosmo._pars/__reduce__ as translated from cosmology.py = Model.reduce_args",
          "forall (num : Type) (o : @cosmo_obj num), (let a := reduce_args o in (a_H0 a, a_h a, a_flat a, a_om a, a_ol a, a_ok a)) "
          "= reduce_args_src (s_H0 o) (c_flat o) (c_om o) (c_ol o) (c_ok o)", "intros; reflexivity."),
